@@ -21,7 +21,8 @@ from .. import common as cm
 PROP = 'C01'
 THEOREMS = [
     'C01.lengths_roundtrip', 'C01.lengths_readback', 'C01.hilos_roundtrip', 'C01.hilos_readback',
-    'C01.abc_gram', 'C01.abc_rebuild_normal', 'C01.abc_rebuild_rotation',
+    'C01.vectors_roundtrip', 'C01.abc_gram', 'C01.abc_rebuild_normal', 'C01.abc_rebuild_normal_clean',
+    'C01.abc_rebuild_rotation',
     'C01.gram_eq_rotation', 'C01.rotation_preserves_gram',
     'C01.rel_cart_inverse', 'C01.reciprocal_dual', 'C01.reciprocal_dual_dots', 'C01.recip_depends_on_vects_only',
     'C01.inside_iff_rel', 'C01.inside_indep_of_norms', 'C01.outside_eq_not_inside', 'C01.outside_iff_rel',
@@ -234,7 +235,7 @@ def gen_spec(rng, regime, allow_left=False, kinds=None):
     g = regime == 'grid'
     num = (lambda lo, hi: _dy(rng, lo, hi)) if g else (lambda lo, hi: rng.uniform(lo, hi))
     pos = (lambda hi=8.0: _pos_dy(rng, hi)) if g else (lambda hi=8.0: rng.uniform(0.5, hi))
-    origin = [num(-8, 8) for _ in range(3)] if rng.random() < 0.8 else None
+    origin = [num(-8, 8) for _ in range(3)] if rng.random() < 0.7 else None
     spec = {'kind': kind, 'via': via, 'regime': regime}
     if rng.random() < 0.3:
         spec['container'] = 'array'
@@ -559,7 +560,7 @@ class _Scenario:
 
 
 def _short(spec):
-    return {k: v for k, v in spec.items() if k in ('kind', 'via', 'kw', 'family', 'fargs', 'container')}
+    return {k: v for k, v in spec.items() if k in ('kind', 'via', 'kw', 'family', 'fargs', 'container', 'regime', '_ok')}
 
 
 def _cond(model_vects, model_recip):
@@ -644,6 +645,11 @@ def _special_scenarios(ctx, rng):
         {'kind': 'abc', 'via': 'set', 'kw': {'a': 1.0, 'b': 2.0, 'c': 3.0, 'alpha': 90.0, 'beta': 180.0, 'gamma': 90.0}},
         {'kind': 'abc', 'via': 'method', 'kw': {'a': 1.0, 'b': 2.0, 'c': 3.0, 'alpha': 90.0, 'beta': 90.0, 'gamma': 190.0}},
         {'kind': 'abc', 'via': 'method', 'kw': {'a': 1.0, 'b': 2.0, 'c': 3.0, 'alpha': -10.0, 'beta': 90.0, 'gamma': 90.0}},
+        {'kind': 'abc', 'via': 'method', 'kw': {'a': 1.0, 'b': 2.0, 'c': 3.0, 'alpha': 180.0, 'beta': 90.0, 'gamma': 90.0}},
+        {'kind': 'abc', 'via': 'method', 'kw': {'a': 1.0, 'b': 2.0, 'c': 3.0, 'alpha': 90.0, 'beta': 0.0, 'gamma': 90.0}},
+        {'kind': 'abc', 'via': 'method', 'kw': {'a': 1.0, 'b': 2.0, 'c': 3.0, 'alpha': 90.0, 'beta': 90.0, 'gamma': 0.0}},
+        {'kind': 'abc', 'via': 'method', 'kw': {'a': 1.0, 'b': 2.0, 'c': 3.0, 'alpha': 90.0, 'beta': 90.0, 'gamma': 180.0}},
+        {'kind': 'abc', 'via': 'set', 'kw': {'a': 1.0, 'b': 2.0, 'c': 3.0, 'alpha': 90.0, 'beta': 200.0, 'gamma': 90.0}},
         {'kind': 'abc', 'via': 'method', 'kw': {'a': 1.0, 'b': 2.0, 'c': 3.0, 'alpha': 60.0, 'beta': 60.0, 'gamma': 150.0}},
         {'kind': 'abc', 'via': 'set', 'kw': {'a': 1.0, 'b': 2.0, 'c': 3.0, 'alpha': 20.0, 'beta': 140.0, 'gamma': 100.0}},
         {'kind': 'abc', 'via': 'method', 'kw': {'a': -1.0, 'b': 2.0, 'c': 3.0}},
@@ -670,6 +676,16 @@ def _special_scenarios(ctx, rng):
     sc.read_recip()
     sc.read_conv('r2c')
     sc.add('c2r 1 2 3', 'c2r', _try_c2r(sc.box, [1.0, 2.0, 3.0]), variant='list', point=[1.0, 2.0, 3.0])
+    for z in range(3):      # zero on the diagonal of an otherwise triangular cell: not LAMMPS-normal
+        V = [[2.0, 0.0, 0.0], [0.5, 3.0, 0.0], [0.25, 1.0, 4.0]]
+        V[z][z] = 0.0
+        sc.setter({'kind': 'vects', 'via': 'set', 'kw': {'vects': V}, 'regime': 'grid'})
+        sc.read_get()
+        sc.read_lammps()
+        V[z][z] = -1.5
+        sc.setter({'kind': 'attr_vects', 'via': 'attr', 'kw': {'vects': V}, 'regime': 'grid'})
+        sc.read_get()
+        sc.read_lammps()
     sc.setter({'kind': 'reset', 'via': 'set', 'kw': {}, 'regime': 'grid'})
     sc.all_reads()
     sc.setter({'kind': 'attr_origin', 'via': 'ctor', 'kw': {'origin': [0.5, -1.0, 2.0]}, 'regime': 'grid'})
@@ -691,7 +707,7 @@ def correspond(ctx):
     if Fraction(t) != THR:
         ctx.disagree('thr', f'driver threshold {t} is not the double 1e-9', {'op': 'thr'})
     _check_threshold_literal(ctx)
-    scs = _special_scenarios(ctx, rng) + _scenarios(ctx, rng, ctx.n(110, 2500))
+    scs = _special_scenarios(ctx, rng) + _scenarios(ctx, rng, ctx.n(250, 5000))
     lines = [it[0] for sc in scs for it in sc.items]
     outs = ctx.driver.ask_many(lines)
     k = 0
@@ -941,6 +957,9 @@ def oracle_cell(ctx, spec, pts, rels, muts=()):
     for m in muts:
         try:
             box.reciprocal_vects          # make sure a cache exists before the mutation
+        except Exception:  # noqa  (singular intermediate cell: outside the quantifier)
+            pass
+        try:
             box = apply_spec(box, m)
         except Exception as e:  # noqa
             viol(f"construct:{m['kind']}", f"valid cell redefinition {_short(m)} raised {type(e).__name__}: {e}")
@@ -962,6 +981,12 @@ def _oracle_box(ctx, box, spec, pts, rels, viol, after_mutation=False):
 
     # -- the defining values come back (construction clause) ------------------------------------------
     kw = spec['kw']
+    if spec['kind'] in ('vects', 'vectors', 'abc', 'lengths') and spec.get('via') != 'family':
+        wo = kw.get('origin', [0.0, 0.0, 0.0])      # documented default: (0,0,0)
+        if any(o[i] != Fraction(float(wo[i])) for i in range(3)):
+            viol(f"construct:{spec['kind']}:origin", f'{_short(spec)} ' + ('applied to an existing Box ' if after_mutation else '')
+                 + f'gives origin {box.origin.tolist()}, expected {list(wo)}' + (' (the default)' if 'origin' not in kw else ''))
+            return
     if spec['kind'] in ('vects', 'vectors', 'attr_vects'):
         Vin = kw['vects'] if 'vects' in kw else [kw['avect'], kw['bvect'], kw['cvect']]
         for i in range(3):
@@ -1238,9 +1263,38 @@ def _show(arg):
     return s if len(s) < 200 else s[:200] + '…'
 
 
+def _search_disagreements(ctx):
+    """first the inputs on which model and implementation disagreed: the same op histories, judged by the
+    independent clause oracle."""
+    seen = set()
+    for d in list(ctx.disagreements):
+        r = d.replay or {}
+        hist = [dict(h) for h in r.get('history', []) if h.get('_ok', True)]
+        if not hist or hist[0]['kind'] in ('attr_vects',):
+            continue
+        first, muts = hist[0], hist[1:][-6:]
+        key = repr((first, muts, r.get('point')))
+        if key in seen or len(seen) >= 40:
+            continue
+        seen.add(key)
+        if first.get('via') in ('family',) and 'family' not in first:
+            continue
+        line = (r.get('line') or '').split()
+        pt = r.get('point') if r.get('point') and len(r['point']) == 3 else [0.25, 0.5, 0.75]
+        pts = [pt] if line and line[0] in ('c2r', 'inside', 'outside') else [[0.25, 0.5, 0.75]]
+        rels = [pt] if line and line[0] == 'r2c' else [[0.25, 0.5, 0.75]]
+        for m in [first] + muts:
+            m.setdefault('regime', 'float')
+            if m.get('via') in ('ctor', 'family') and m is not first:
+                m['via'] = 'set'
+        oracle_cell(ctx, first, pts, rels, muts)
+
+
 def search(ctx, broken):
+    if ctx.disagreements:
+        _search_disagreements(ctx)
     rng = random.Random(ctx.seed * 7919 + 17)
-    N = ctx.n(28, 600) * (3 if broken else 1)
+    N = ctx.n(60, 1200) * (3 if broken else 1)
     for it in range(N):
         regime = 'grid' if it % 2 == 0 else 'float'
         kinds = ['lengths', 'hilos'] if it % 7 == 0 else None
